@@ -217,6 +217,84 @@ pub fn expected(segs: &[Seg], cfg: Settings) -> String {
     out
 }
 
+/// One lexical piece of a printed program: a run of text, or a tag with its whitespace markers.
+/// `block_like` tags (block tags, comments, raw/endraw) take part in trim_blocks / lstrip_blocks;
+/// `inert` tags (line statements and whole-line comments, which own their complete line) touch
+/// neither neighbour.
+#[derive(Clone, Debug, Serialize, Deserialize, PartialEq)]
+pub enum Piece {
+    Text(String),
+    Tag { block_like: bool, inert: bool, left: Marker, right: Marker, src: String },
+}
+
+impl Piece {
+    pub fn src(&self) -> &str {
+        match self {
+            Piece::Text(t) => t,
+            Piece::Tag { src, .. } => src,
+        }
+    }
+}
+
+/// The rules of `expected`, stated per text run of an arbitrary printed program: for every
+/// `Piece::Text` the characters of it that reach the output (`None` for tags). Text runs must be
+/// maximal (no two adjacent, none empty).
+pub fn effective_texts(pieces: &[Piece], cfg: Settings) -> Vec<Option<String>> {
+    let full: String = pieces.iter().map(|p| p.src()).collect();
+    let last_text = pieces.len().checked_sub(1).filter(|i| matches!(pieces[*i], Piece::Text(_)));
+    let mut out = vec![];
+    let mut pos = 0usize;
+    for (i, p) in pieces.iter().enumerate() {
+        match p {
+            Piece::Tag { src, .. } => {
+                out.push(None);
+                pos += src.len();
+            }
+            Piece::Text(t) => {
+                let mut t: &str = t;
+                let whole_len = t.len();
+                // one trailing line ending of the template is removed unless keep_trailing_newline
+                if !cfg.keep_trailing_newline && last_text == Some(i) {
+                    // (LF, CRLF or a lone CR, as in `expected`)
+                    if let Some(r) = t.strip_suffix('\n') {
+                        t = r;
+                    }
+                    if let Some(r) = t.strip_suffix('\r') {
+                        t = r;
+                    }
+                }
+                let visible_len = t.len();
+                let mut s: &str = t;
+                if i > 0 {
+                    if let Piece::Tag { block_like, inert, right, .. } = &pieces[i - 1] {
+                        match right {
+                            _ if *inert => {}
+                            Marker::Minus => s = s.trim_start(),
+                            Marker::None if cfg.trim_blocks && *block_like => s = strip_one_newline(s),
+                            _ => {}
+                        }
+                    }
+                }
+                if let Some(Piece::Tag { block_like, inert, left, .. }) = pieces.get(i + 1) {
+                    match left {
+                        _ if *inert => {}
+                        Marker::Minus => s = s.trim_end(),
+                        Marker::None if cfg.lstrip_blocks && *block_like => {
+                            if at_line_start(&full, pos + visible_len) {
+                                s = strip_trailing_horizontal(s);
+                            }
+                        }
+                        _ => {}
+                    }
+                }
+                out.push(Some(s.to_string()));
+                pos += whole_len;
+            }
+        }
+    }
+    out
+}
+
 #[cfg(test)]
 mod tests {
     use super::*;
@@ -232,5 +310,20 @@ mod tests {
         assert_eq!(expected(&segs, all_off), "aVb");
         let segs = vec![Seg::Text("a\n  ".into()), Seg::Block(Plus, Plus), Seg::Text("\nb".into())];
         assert_eq!(expected(&segs, tl), "a\n  \nb");
+    }
+
+    #[test]
+    fn pieces_agree_with_sequences() {
+        let tl = Settings { trim_blocks: true, lstrip_blocks: true, keep_trailing_newline: false };
+        let segs = vec![Seg::Text("<div>\n    ".into()), Seg::Block(None, None), Seg::Text("\n        yay\n    ".into()), Seg::Block(Minus, None), Seg::Text("\n</div>\n".into())];
+        let pieces: Vec<Piece> = segs
+            .iter()
+            .map(|s| match s {
+                Seg::Text(t) => Piece::Text(t.clone()),
+                other => Piece::Tag { block_like: true, inert: false, left: other.left(), right: other.right(), src: other.source() },
+            })
+            .collect();
+        let joined: String = effective_texts(&pieces, tl).into_iter().flatten().collect();
+        assert_eq!(joined, expected(&segs, tl));
     }
 }
